@@ -73,13 +73,15 @@ def dedupe(cases):
 
 
 def stratify(cases, budget, seed):
-    """Deterministic sub-sample: buckets by (last op, number of commits), round-robin over the buckets."""
+    """Deterministic sub-sample: buckets by (last op, number of commits, GEN hints), round-robin over the buckets."""
     import hashlib
     if len(cases) <= budget:
         return cases
     buckets = {}
     for c in cases:
-        k = (c["log"][-1]["op"], len(c["log"]))
+        h = c.get("hint", {})
+        k = (c["log"][-1]["op"], len(c["log"]), min(h.get("warn", 0), 2), bool(h.get("dup")), bool(h.get("moved")),
+             ",".join(sorted(h.get("acc", []))))
         buckets.setdefault(k, []).append(c)
     for k in buckets:
         buckets[k].sort(key=lambda c: hashlib.sha1((str(seed) + case_key(c)).encode()).hexdigest())
